@@ -329,6 +329,68 @@ func mapLoops(f *ssa.Function) []*mapLoop {
 var sortFuncs = map[string]bool{"sort.Strings": true, "sort.Slice": true, "sort.SliceStable": true, "sort.Sort": true, "sort.Stable": true, "sort.Ints": true,
 	"slices.Sort": true, "slices.SortFunc": true, "slices.SortStableFunc": true}
 
+// sortOrderOK: the sort call imposes a total order on the elements' own text / value: sort.Strings /
+// sort.Ints, or sort.Slice* / slices.SortFunc with a comparator that is a plain `<` (or `>`) between
+// the same field of the two elements. A hand-written comparator that is not a strict weak order
+// makes the result depend on the input (map) order.
+func sortOrderOK(c *Ctx, ci ssa.CallInstruction) (bool, string) {
+	sc := ci.Common().StaticCallee()
+	if sc == nil {
+		return false, "dynamic"
+	}
+	n := sc.String()
+	if i := strings.Index(n, "["); i >= 0 {
+		n = n[:i]
+	}
+	switch n {
+	case "sort.Strings", "sort.Ints", "sort.Float64s", "slices.Sort":
+		return true, "natural order"
+	case "sort.Slice", "sort.SliceStable", "slices.SortFunc", "slices.SortStableFunc":
+		if len(ci.Common().Args) < 2 {
+			return false, "no comparator"
+		}
+		mc, ok := ci.Common().Args[1].(*ssa.MakeClosure)
+		var less *ssa.Function
+		if ok {
+			less, _ = mc.Fn.(*ssa.Function)
+		} else if f, ok := ci.Common().Args[1].(*ssa.Function); ok {
+			less = f
+		}
+		if less == nil {
+			return false, "comparator is not a function literal"
+		}
+		a := c.FA(less)
+		rs := a.returns()
+		if len(rs) != 1 || len(less.Blocks) != 1 {
+			return false, "comparator has several paths (a case distinction inside a comparator is rarely a strict weak order)"
+		}
+		v := rs[0].Results[0]
+		if call, ok := v.(*ssa.Call); ok && call.Call.StaticCallee() != nil && (call.Call.StaticCallee().String() == "strings.Compare" || call.Call.StaticCallee().String() == "cmp.Compare") {
+			return sameFieldOfTwo(a, call.Call.Args[0], call.Call.Args[1])
+		}
+		b, ok := v.(*ssa.BinOp)
+		if !ok || (b.Op != token.LSS && b.Op != token.GTR) {
+			return false, "comparator does not return a single `<` comparison: " + a.Desc(v)
+		}
+		return sameFieldOfTwo(a, b.X, b.Y)
+	}
+	return false, "unrecognised sort routine " + n
+}
+
+// sameFieldOfTwo: x and y are the same projection of two different elements.
+func sameFieldOfTwo(a *FnA, x, y ssa.Value) (bool, string) {
+	dx, dy := collectionShape(a, x), collectionShape(a, y)
+	if dx == dy && a.Desc(x) != a.Desc(y) {
+		return true, "compares " + dx + " of the two elements"
+	}
+	if _, isP := x.(*ssa.Parameter); isP {
+		if _, isQ := y.(*ssa.Parameter); isQ && x != y {
+			return true, "compares the two elements"
+		}
+	}
+	return false, "comparator compares " + a.Desc(x) + " with " + a.Desc(y)
+}
+
 func isSortCall(ci ssa.CallInstruction) bool {
 	sc := ci.Common().StaticCallee()
 	if sc == nil {
@@ -535,6 +597,9 @@ func sortedBeforeRead(a *FnA, phi *ssa.Phi, ml *mapLoop) (bool, string) {
 	if sortCall == nil {
 		return false, "the collected slice is never sorted: its order is the map's iteration order"
 	}
+	if ok, why := sortOrderOK(a.c, sortCall.(ssa.CallInstruction)); !ok {
+		return false, "sorted, but not by a recognisable total order (" + why + "): the result may still depend on the map's iteration order"
+	}
 	for _, r := range outside {
 		if r == sortCall {
 			continue
@@ -588,6 +653,9 @@ func cellSortedBeforeRead(a *FnA, cell *ssa.Alloc, ml *mapLoop) (bool, string) {
 	}
 	if sortCall == nil {
 		return false, "the collected slice is never sorted: its order is the map's iteration order"
+	}
+	if ok, why := sortOrderOK(a.c, sortCall); !ok {
+		return false, "sorted, but not by a recognisable total order (" + why + "): the result may still depend on the map's iteration order"
 	}
 	for _, l := range loads {
 		// loads inside the loop prelude (before the loop) are initial empties
